@@ -237,7 +237,7 @@ PROPS = {
         rule=("rapid histories of 1..12 messages over 32 message kinds (6 start, 11 verify, 12 key-exchange, 3 other variants) for random setup code, controller id and key seed. "
               "Non-trivial: at least one key-exchange message sent after at least one verify message on the same connection. Distinct by (code, id, seed, history)."),
         assumptions=["the attacker does not know the setup code; forged keys are derived only from public values"],
-        essential_classes=["exchange-genuine:accepted<-verify-right", "exchange-zero-key<-verify-A-zero", "exchange-zero-key<-verify-right", "exchange-replayed<-verify-right", "two-connections", "regress"],
+        essential_classes=["exchange-genuine:accepted<-verify-right", "exchange-zero-key<-verify-A-zero", "exchange-zero-key<-verify-right", "exchange-replayed<-verify-right", "exchange-second-identity<-verify-right", "two-connections", "regress"],
         jobs=[
             dict(test="TestC02Regress", kind="plain"),
             dict(test="TestC02Prop", kind="rapid", checks={Q: 60, T: 2500}, shards=16),
@@ -251,7 +251,7 @@ PROPS = {
         level_note="Trusted: refctl's X25519/HKDF/Ed25519 usage; the observation that session.Decrypter() is non-nil exactly when an encrypted session is installed. Handler panics are counted (C13 judges them). The wire-level consequence (ciphertext under attacker-derived keys is not served) is exercised by C01.",
         rule=("rapid histories of 1..10 messages over 29 message kinds, random key seeds, 0..3 stored controllers, 1..2 connections, state-biased generator. Non-trivial: at least one finish variant sent after an accepted start. Distinct by (seed, stored, history)."),
         assumptions=["the adversary owns no long-term secret key of a stored controller"],
-        essential_classes=["finish-genuine:verified/stored=1", "finish-wrong-key/stored=1", "finish-accessory-name/stored=0", "finish-seal-zero-key(no-exchange)/stored=1", "finish-replayed/stored=2", "start-keylen-31", "regress"],
+        essential_classes=["finish-genuine:verified/stored=1", "finish-wrong-key/stored=1", "finish-accessory-name/stored=0", "finish-seal-zero-key(no-exchange)/stored=1", "finish-replayed/stored=2", "start-keylen-31", "regress", "replay-whole-exchange/stored=1", "finish-genuine-late(after-ended-exchange)/stored=1"],
         jobs=[
             dict(test="TestC03Regress", kind="plain"),
             dict(test="TestC03Prop", kind="rapid", checks={Q: 1000, T: 30000}, shards=16),
@@ -283,9 +283,9 @@ PROPS = {
         level_note="Trusted: refctl; the canary/keyword disclosure scan. /identify is unprotected by specification and not treated as protected. Reuse of a closed verified connection's source port by a new connection is not generated. For sealed requests the harness waits 120 ms of silence to conclude that nothing was served (a miss, never an alarm, if the accessory answered later).",
         rule=("rapid state machine, about 30 actions per history over 11 action kinds; protected requests drawn from 12 request shapes. Non-trivial: at least one attacker request to a protected endpoint issued while the legitimate controller is verified on another connection. Distinct by history."),
         assumptions=["the attacker knows neither the setup code nor a paired long-term secret key"],
-        essential_classes=["/accessories/plaintext", "/characteristics:get/plaintext", "/characteristics:put/plaintext", "/characteristics:subscribe/plaintext", "/pairings:add/plaintext", "/pairings:remove/plaintext", "/resource/plaintext", "legit-served", "app-change", "pair-verify-forged-finish", "pair-setup-fragment"],
+        essential_classes=["/accessories/plaintext", "/characteristics:get/plaintext", "/characteristics:put/plaintext", "/characteristics:subscribe/plaintext", "/pairings:add/plaintext", "/pairings:remove/plaintext", "/resource/plaintext", "legit-served", "app-change", "pair-verify-forged-finish", "pair-setup-fragment", "replayed-sniffed-verify"],
         jobs=[
-            dict(test="TestC01Prop", kind="rapid", checks={Q: 12, T: 1500}, shards=16),
+            dict(test="TestC01Prop", kind="rapid", checks={Q: 8, T: 1200}, shards=16),
         ],
     ),
     "C09": dict(
